@@ -409,6 +409,12 @@ def model_line(sc, rows, minver):
     words = ["S", str(sc.init[0]), str(sc.init[1]), str(sc.init[2])]
     for k, m in enumerate(sc.msgs):
         mw = list(m.model)
+        if mw[0] == "sub":
+            # oracle read from the driver: did the topic initialiser zero Session.uid (the handler is outside the
+            # model; whether that side effect is legitimate is judged by the monitor, not by the model)
+            prev = rows[k - 1]["state"] if k > 0 and rows[k - 1] is not None else tuple(sc.init)
+            cur = rows[k]["state"] if k < len(rows) and rows[k] is not None else prev
+            mw[2] = "1" if (prev[1] != 0 and cur[1] == 0 and (cur[0], cur[2]) == (prev[0], prev[2])) else "0"
         if "{PV}" in mw:
             pv = rows[k]["pv"] if k < len(rows) and rows[k] is not None and rows[k]["pv"] is not None else 0
             mw = [("%d" % pv) if w == "{PV}" else (("1" if (pv >> 8) >= (minver >> 8) else "0") if w == "{SUP}" else w) for w in mw]
@@ -525,14 +531,15 @@ def monitor(sc, irows):
         ver, uid, lvl = st
         if ver == 0 and sel != "hi":
             ok = after == st and not effect
+            # the property demands a refusal; which 4xx is the code's choice (the exact code is the model's business)
             if sel == "note" and not has_as:
                 ok = ok and names == []
             elif not has_as:
-                ok = ok and names == ["outofseq409"]
+                ok = ok and names in (["outofseq409"], ["authreq401"])
             elif sel == "note":
                 ok = ok and names in ([], ["denied403"], ["malf400"])
             else:
-                ok = ok and len(names) == 1 and names[0] in ("outofseq409", "denied403", "malf400")
+                ok = ok and len(names) == 1 and names[0] in ("outofseq409", "authreq401", "denied403", "malf400")
             if not ok:
                 res.append(("pre-hi-refused", k, "before the handshake {%s} got %s, state %s -> %s, effect=%s" % (sel, names, st, after, effect)))
         elif uid == 0 and lvl != 30 and sel not in ("hi", "login", "acc"):
@@ -540,11 +547,11 @@ def monitor(sc, irows):
             if sel == "note" and not has_as:
                 ok = ok and names == []
             elif not has_as:
-                ok = ok and names == ["authreq401"]
+                ok = ok and names in (["authreq401"], ["outofseq409"])
             elif sel == "note":
                 ok = ok and names in ([], ["denied403"], ["malf400"])
             else:
-                ok = ok and len(names) == 1 and names[0] in ("authreq401", "denied403", "malf400")
+                ok = ok and len(names) == 1 and names[0] in ("authreq401", "outofseq409", "denied403", "malf400")
             if not ok:
                 res.append(("pre-login-refused", k, "before login {%s} got %s, state %s -> %s, effect=%s" % (sel, names, st, after, effect)))
         if uid != 0 and sel == "login":
@@ -556,7 +563,9 @@ def monitor(sc, irows):
             # everything after this point is a consequence of the same defect (logged-out session that keeps its level)
             res.append((LOGOUT_LAW, k, "{sub} on behalf of a user whose account does not exist zeroed the uid of the requesting session and kept its level: %s -> %s; the session can then log in a second time" % (st, after)))
             break
-        if sel not in ("hi", "login", "acc") and after != st:
+        if sel == "sub" and not has_as and uid != 0 and after == (ver, 0, lvl):
+            pass        # the session's own account is gone: logging it out is legitimate
+        elif sel not in ("hi", "login", "acc") and after != st:
             res.append(("state-changes-only-at-hi-login-acc", k, "{%s} changed the session state %s -> %s" % (sel, st, after)))
         if ver != 0 and after[0] != ver:
             res.append(("version-fixed", k, "protocol version changed after the handshake: %d -> %d" % (ver, after[0])))
@@ -637,7 +646,8 @@ def run(ctx):
         ctx.violation("proof", "translator-failed", "harness/translators/dispatch did not produce coq/Gen/GenDispatch.v: " + out[-1500:],
                       {"theorem_or_obligation": "translation of Session.dispatch"})
     elif not ctx.proof_ok() and proof["failed"] and ("ObC11" in proof["failed"] or "GenDispatch" in proof["failed"]):
-        bad = re.findall(r"Unrecognised \"([^\"]*)\"", gen_text)
+        bad = re.findall(r"Unrecognised \"([^\"]*)\"", gen_text) + \
+            ["%s does not have the known shape" % f for f in re.findall(r"(gd_\w+) := false", gen_text)]
         ctx.violation("proof", "guard-table-obligation",
                       "the guard table regenerated from server/session.go no longer satisfies table_ok (coq/Gen/ObC11.v): %s; %s"
                       % ("; ".join(bad[:5]) if bad else "an entry differs from the demanded guards", proof["failed"][-600:]),
